@@ -372,38 +372,38 @@ func c06Cells(thorough bool) []c06Cell {
 	}
 	// fixed cells that do not depend on an offered value
 	fixed := map[string][2]string{
-		"fixed/arity-missing":          {"gi()\n", "reject"},
-		"fixed/arity-extra":            {"gi(1, 2)\n", "reject"},
-		"fixed/arity-two-missing":      {"g2(1)\n", "reject"},
-		"fixed/arity-ok":               {"g2(1, \"a\")\n", "accept"},
-		"fixed/void-statement":         {"fv()\n", "accept"},
-		"fixed/valued-call-statement":  {"fi()\n", "accept"},
-		"fixed/multi-call-statement":   {"f2()\n", "accept"},
-		"fixed/three-from-two":         {"a, b, c := f2()\n", "reject"},
-		"fixed/one-from-two":           {"a := f2()\n", "reject"},
-		"fixed/two-values-one-var":     {"a := 1, 2\n", "reject"},
-		"fixed/one-value-two-vars":     {"a, b := 1\n", "reject"},
-		"fixed/assign-count":           {"vi, vj = 1\n", "reject"},
-		"fixed/return-too-many":        {"func r() int {\nreturn 1, 2\n}\n", "reject"},
-		"fixed/return-too-few":         {"func r() (int, int) {\nreturn 1\n}\n", "reject"},
-		"fixed/return-ok-two":          {"func r() (int, string) {\nreturn 1, \"a\"\n}\n", "accept"},
-		"fixed/write-too-few":          {"write(vs)\n", "reject"},
-		"fixed/write-too-many":         {"write(vs, vs, vb, vb)\n", "reject"},
-		"fixed/len-none":               {"t := len()\n", "reject"},
-		"fixed/len-two":                {"t := len(vs, vs)\n", "reject"},
-		"fixed/copy-one":               {"t := copy(si)\n", "reject"},
-		"fixed/copy-mismatch":          {"t := copy(si, ss)\n", "reject"},
-		"fixed/copy-literal-dst":       {"t := copy([]int{1}, si)\n", "reject"},
-		"fixed/itoa-two":               {"t := itoa(1, 2)\n", "reject"},
-		"fixed/input-two":              {"t := input(vs, vs)\n", "reject"},
-		"fixed/input-none":             {"t := input()\n", "accept"},
-		"fixed/print-none":             {"print()\n", "accept"},
-		"fixed/slice-range-on-slice":   {"t := si[0:1]\n", "reject"},
-		"fixed/switch-tag-slice":       {"switch si {\ndefault:\n}\n", "reject"},
-		"fixed/switch-two-defaults":    {"switch vi {\ndefault:\ndefault:\n}\n", "reject"},
-		"fixed/redeclare-typed-other":  {"vi, nn := 1, 2\nvar vi, mm string = \"a\", \"b\"\n", "reject"},
-		"fixed/for-init-not-assign":    {"for print(1); vb; vi++ {\nbreak\n}\n", "reject"},
-		"fixed/for-post-not-assign":    {"for k := 0; vb; print(1) {\nbreak\n}\n", "reject"},
+		"fixed/arity-missing":         {"gi()\n", "reject"},
+		"fixed/arity-extra":           {"gi(1, 2)\n", "reject"},
+		"fixed/arity-two-missing":     {"g2(1)\n", "reject"},
+		"fixed/arity-ok":              {"g2(1, \"a\")\n", "accept"},
+		"fixed/void-statement":        {"fv()\n", "accept"},
+		"fixed/valued-call-statement": {"fi()\n", "accept"},
+		"fixed/multi-call-statement":  {"f2()\n", "accept"},
+		"fixed/three-from-two":        {"a, b, c := f2()\n", "reject"},
+		"fixed/one-from-two":          {"a := f2()\n", "reject"},
+		"fixed/two-values-one-var":    {"a := 1, 2\n", "reject"},
+		"fixed/one-value-two-vars":    {"a, b := 1\n", "reject"},
+		"fixed/assign-count":          {"vi, vj = 1\n", "reject"},
+		"fixed/return-too-many":       {"func r() int {\nreturn 1, 2\n}\n", "reject"},
+		"fixed/return-too-few":        {"func r() (int, int) {\nreturn 1\n}\n", "reject"},
+		"fixed/return-ok-two":         {"func r() (int, string) {\nreturn 1, \"a\"\n}\n", "accept"},
+		"fixed/write-too-few":         {"write(vs)\n", "reject"},
+		"fixed/write-too-many":        {"write(vs, vs, vb, vb)\n", "reject"},
+		"fixed/len-none":              {"t := len()\n", "reject"},
+		"fixed/len-two":               {"t := len(vs, vs)\n", "reject"},
+		"fixed/copy-one":              {"t := copy(si)\n", "reject"},
+		"fixed/copy-mismatch":         {"t := copy(si, ss)\n", "reject"},
+		"fixed/copy-literal-dst":      {"t := copy([]int{1}, si)\n", "reject"},
+		"fixed/itoa-two":              {"t := itoa(1, 2)\n", "reject"},
+		"fixed/input-two":             {"t := input(vs, vs)\n", "reject"},
+		"fixed/input-none":            {"t := input()\n", "accept"},
+		"fixed/print-none":            {"print()\n", "accept"},
+		"fixed/slice-range-on-slice":  {"t := si[0:1]\n", "reject"},
+		"fixed/switch-tag-slice":      {"switch si {\ndefault:\n}\n", "reject"},
+		"fixed/switch-two-defaults":   {"switch vi {\ndefault:\ndefault:\n}\n", "reject"},
+		"fixed/redeclare-typed-other": {"vi, nn := 1, 2\nvar vi, mm string = \"a\", \"b\"\n", "reject"},
+		"fixed/for-init-not-assign":   {"for print(1); vb; vi++ {\nbreak\n}\n", "reject"},
+		"fixed/for-post-not-assign":   {"for k := 0; vb; print(1) {\nbreak\n}\n", "reject"},
 	}
 	for _, k := range func() []string {
 		m := map[string]string{}
